@@ -37,6 +37,17 @@ func main() {
 	switch os.Args[1] {
 	case "check":
 		os.Exit(cmdCheck(os.Args[2:]))
+	case "ssa":
+		P, err := loadProg("/repo", "")
+		if err != nil {
+			fmt.Println(err)
+			os.Exit(2)
+		}
+		for k, fn := range P.fnByKey {
+			if strings.HasSuffix(k, "|"+os.Args[3]) && strings.HasSuffix(strings.Split(k, "|")[0], os.Args[2]) {
+				fn.WriteTo(os.Stdout)
+			}
+		}
 	case "parse":
 		for _, f := range os.Args[2:] {
 			if _, err := parseContractFile(f); err != nil {
